@@ -430,7 +430,7 @@ theorem checker_error_nodes :
 theorem check_returns_located_error_first :
     Gen.Loc.checkTail =
       ["if v.err != nil { return t, v.err.Bind(tree.Source) }",
-       "if v.expect != reflect.Invalid { switch v.expect { case reflect.Int64, reflect.Float64: if !isNumber(t) { return nil, fmt.Errorf(\"expected %v, but got %v\", v.expect, t) } default: if t.Kind() != v.expect { return nil, fmt.Errorf(\"expected %v, but got %v\", v.expect, t) } } }",
+       "if v.expect != reflect.Invalid { switch v.expect { case reflect.Int64, reflect.Float64: if !isNumber(t) { return nil, fmt.Errorf(\"expected %v, but got %v\", v.expect, t) } default: if t == nil || t.Kind() != v.expect { return nil, fmt.Errorf(\"expected %v, but got %v\", v.expect, t) } } }",
        "return t, nil"] := by
   decide +kernel
 
